@@ -8,6 +8,7 @@ import NeatviVerif.Drive.ExJudge
 import NeatviVerif.Drive.Vi
 import NeatviVerif.Drive.ViSpec
 import NeatviVerif.Drive.ViSpec08
+import NeatviVerif.Drive.Led
 /-!
 Line-protocol driver.  Reads case lines (input + the implementation's observables, as printed by
 the C harnesses) on stdin; for every line recomputes the model's observables and evaluates the
@@ -49,6 +50,7 @@ def judge (stream : String) (kv : KV) : Option Verdict :=
   | "lops02" => some (LbufD.judgeLops 2 kv)
   | "rdwr01" => some (LbufD.judgeRdwr 1 kv)
   | "rdwr03" => some (LbufD.judgeRdwr 3 kv)
+  | "led" => some (LedD.judge kv)
   | _ => none
 
 partial def loop (h : IO.FS.Stream) (limit : Nat) (ln : Nat) (accs : List (String × Acc)) : IO (List (String × Acc)) := do
